@@ -363,3 +363,53 @@ func reachableUnderPhi(fn *ssa.Function, target ssa.Instruction, atom func(cond 
 	}
 	return dfs(fn.Blocks[0], nil, map[ssa.Value]bool3{})
 }
+
+// iterationOutcomes simulates one loop iteration from block start under a
+// (partial) evaluation of the branch conditions: known conditions are followed,
+// unknown ones fork. Outcomes: "continue" (the walk arrives at a block that
+// dominates start, i.e. the loop header), "return <const>" / "return ?", "panic".
+func iterationOutcomes(start *ssa.BasicBlock, eval func(cond ssa.Value) (known, val bool)) map[string]bool {
+	out := map[string]bool{}
+	seen := map[*ssa.BasicBlock]bool{}
+	var walk func(b *ssa.BasicBlock, first bool)
+	walk = func(b *ssa.BasicBlock, first bool) {
+		if !first && b != start && b.Dominates(start) {
+			out["continue"] = true
+			return
+		}
+		if seen[b] {
+			return
+		}
+		seen[b] = true
+		switch last := b.Instrs[len(b.Instrs)-1].(type) {
+		case *ssa.Return:
+			if len(last.Results) == 1 {
+				if v, ok := constBool(last.Results[0]); ok {
+					out[fmt.Sprintf("return %v", v)] = true
+					return
+				}
+			}
+			out["return ?"] = true
+		case *ssa.If:
+			c, pol := normCond(last.Cond, true)
+			if known, val := eval(c); known {
+				if val == pol {
+					walk(b.Succs[0], false)
+				} else {
+					walk(b.Succs[1], false)
+				}
+				return
+			}
+			walk(b.Succs[0], false)
+			walk(b.Succs[1], false)
+		case *ssa.Panic:
+			out["panic"] = true
+		default:
+			for _, s := range b.Succs {
+				walk(s, false)
+			}
+		}
+	}
+	walk(start, true)
+	return out
+}
